@@ -379,4 +379,86 @@ def parseDexX (file : Bytes) : Except String DexVX :=
       | .error e => .error e
       | .ok cx => viewOfX cx
 
+/-! ## debug_info_item
+
+The map entry DEBUG_INFO_ITEM is loaded as one DebugInfoItemEmpty (raw bytes, never interpreted);
+the debug info of a method is parsed on demand: EncodedMethod.get_debug() → DalvikCode.get_debug() →
+ClassManager.get_debug_off(debug_info_off) = `buff.seek(off); DebugInfoItem(buff, cm)` — also for
+debug_info_off = 0 (then the file header is read as a debug info item). -/
+
+inductive DbgKind
+  | u      -- readuleb128
+  | s      -- readsleb128
+  | u1     -- readuleb128p1
+  deriving DecidableEq, Repr
+
+/-- the operands DebugInfoItem.__init__ reads after each opcode (the if/elif chain on the DBG_*
+    constants; special opcodes 0x0a..0xff and the two flag opcodes have none) -/
+def dbgKinds (op : Nat) : List DbgKind :=
+  if op = 0x01 then [.u]                        -- DBG_ADVANCE_PC
+  else if op = 0x02 then [.s]                   -- DBG_ADVANCE_LINE
+  else if op = 0x03 then [.u, .u1, .u1]         -- DBG_START_LOCAL
+  else if op = 0x04 then [.u, .u1, .u1, .u1]    -- DBG_START_LOCAL_EXTENDED
+  else if op = 0x05 then [.u]                   -- DBG_END_LOCAL
+  else if op = 0x06 then [.u]                   -- DBG_RESTART_LOCAL
+  else if op = 0x09 then [.u1]                  -- DBG_SET_FILE
+  else []
+
+/-- readuleb128p1 -/
+def ulebp1 : Dec Int := fun bs => do
+  let (v, r) ← uleb bs
+  pure ((v : Int) - 1, r)
+
+def decDbgArg : DbgKind → Dec Int
+  | .u => fun bs => do
+    let (v, r) ← uleb bs
+    pure ((v : Int), r)
+  | .s => sleb
+  | .u1 => ulebp1
+
+def decDbgArgs : List DbgKind → Dec (List Int)
+  | [], bs => some ([], bs)
+  | k :: ks, bs => do
+    let (v, r) ← decDbgArg k bs
+    let (vs, r) ← decDbgArgs ks r
+    pure (v :: vs, r)
+
+structure DbgOp where
+  op : Nat
+  args : List Int
+  deriving DecidableEq, Repr
+
+/-- the `while bcode.get_op_value() != DBG_END_SEQUENCE` loop; the end opcode is part of the list.
+    The first argument bounds the number of opcodes (each takes at least one byte; not a behaviour
+    of the code) -/
+def decDbgOps : Nat → Dec (List DbgOp)
+  | 0, _ => none
+  | _ + 1, [] => none                      -- get_byte on an exhausted buffer: struct.error
+  | f + 1, op :: r =>
+    if op = 0 then some ([⟨0, []⟩], r) else do
+      let (args, r) ← decDbgArgs (dbgKinds op) r
+      let (rest, r) ← decDbgOps f r
+      pure (⟨op, args⟩ :: rest, r)
+
+structure DebugInfo where
+  lineStart : Nat
+  paramNames : List Int        -- uleb128p1: -1 = no name
+  ops : List DbgOp
+  deriving DecidableEq, Repr
+
+/-- DebugInfoItem.__init__ -/
+def decDebugInfo : Dec DebugInfo := fun bs => do
+  let (ls, r) ← uleb bs
+  let (n, r) ← uleb r
+  let (names, r) ← decN ulebp1 n r
+  let (ops, r) ← decDbgOps (r.length + 1) r
+  pure (⟨ls, names, ops⟩, r)
+
+/-- ClassManager.get_debug_off(off) -/
+def getDebug (file : Bytes) (off : Nat) : Option DebugInfo := (decDebugInfo (file.drop off)).map (·.1)
+
+/-- EncodedMethod.get_debug() of every method with code, in class / direct-then-virtual order -/
+def debugOfView (file : Bytes) (d : DexV) : List (Nat × Option DebugInfo) :=
+  (allMethods d).filterMap fun m => m.code.map fun c => (c.hdr.debugOff, getDebug file c.hdr.debugOff)
+
 end AgVerif.DexFile
